@@ -409,7 +409,7 @@ fn huge_zst(cfg: &Cfg) -> Report {
 }
 
 pub fn run(cfg: &Cfg) -> (&'static str, Report, String, String) {
-    let maxlen = cfg.by(4, 10, 16);
+    let maxlen = cfg.by(3, 10, 16);
     let mut rep = Report::new();
     rep.merge(run_type::<u32>(cfg, "u32", &|k| 10 + k as u32, maxlen));
     rep.merge(run_type::<()>(cfg, "()", &|_| (), maxlen));
